@@ -56,6 +56,12 @@ def median3 (a b c : F) : F :=
   else
     if le a c then a else if le b c then c else b
 
+/-- `0.0 ≤ s` -/
+def isNonneg (s : F) : Bool :=
+  match (ofInt 0 : Option F) with
+  | some z => le z s
+  | none => false
+
 /-- `x` is finite: not NaN and `|x| ≤ maxFinite` -/
 def isFinite (x : F) : Bool := !isNaN x && le (abs x) maxFinite
 
@@ -75,6 +81,8 @@ open FloatOps in
 the evidence); for `Rat` they are proved in `FrappyProofs/Lemmas/RatLawful.lean`. -/
 class LawfulFloatOps (F : Type) [FloatOps F] : Prop where
   same_iff : ∀ x y : F, same x y = true ↔ x = y
+  /-- a comparison that holds has no NaN operand -/
+  le_notNaN : ∀ x y : F, le x y = true → isNaN x = false ∧ isNaN y = false
   le_refl : ∀ x : F, isNaN x = false → le x x = true
   le_total : ∀ x y : F, isNaN x = false → isNaN y = false → le x y = true ∨ le y x = true
   le_trans : ∀ x y z : F, le x y = true → le y z = true → le x z = true
@@ -86,6 +94,20 @@ class LawfulFloatOps (F : Type) [FloatOps F] : Prop where
   /-- `x + 0.0` does not change what `x` rounds to or is equal to -/
   round_addZero : ∀ x : F, round (addZero x) = round x
   feq_addZero : ∀ x y : F, feq y (addZero x) = feq y x
+  /-- `x + 0.0` is idempotent and leaves ±max and the (non-zero or `+0.0`) products `k * scale` alone -/
+  addZero_idem : ∀ x : F, addZero (addZero x) = addZero x
+  addZero_ofInt : ∀ (i : Int) (y : F), ofInt i = some y → addZero y = y
+  addZero_maxFinite : addZero (maxFinite : F) = maxFinite
+  addZero_neg_maxFinite : addZero (neg (maxFinite : F)) = neg maxFinite
+  addZero_ofGrid : ∀ (k : Int) (y s : F), ofInt k = some y → (∃ z : F, ofInt 0 = some z ∧ lt z s = true) →
+    addZero (mul y s) = mul y s
+  /-- the tolerance band: `a - p ≤ a` and `b ≤ b + p` for `p ≥ 0`; `|x| ≥ 0`; no NaN from finite products -/
+  abs_nonneg : ∀ x : F, isNaN x = false → isNonneg (abs x) = true
+  mul_notNaN : ∀ x y : F, le (neg maxFinite) x = true → le x maxFinite = true → isFinite y = true → isNaN (mul x y) = false
+  sub_le : ∀ a x p : F, isFinite a = true → le a x = true → isNonneg p = true → le (sub a p) x = true
+  le_add : ∀ x b p : F, isFinite b = true → le x b = true → isNonneg p = true → le x (add b p) = true
+  /-- integers within the internal limit `±UNLIMITED` convert to float -/
+  ofInt_isSome : ∀ i : Int, -18446744073709551616 ≤ i → i ≤ 18446744073709551616 → ∃ y : F, ofInt i = some y
   /-- int → float conversion is monotone -/
   ofInt_mono : ∀ (i j : Int) (x y : F), i ≤ j → ofInt i = some x → ofInt j = some y → le x y = true
   /-- `round` of a float is an integer that converts back (`intval * self.scale` cannot overflow in the conversion) -/
